@@ -91,4 +91,17 @@ def knapsackGo {α : Type} (br : Option (List α → List α → Bool)) (wf vf :
   if W < 0 ∨ items.any (fun x => decide (wf x < 0)) then none
   else knapsack br (fun x => (wf x).toNat) vf W.toNat items
 
+/-- Specification side (not a model of code): the best total value of a sub-selection of
+`items` of total weight `≤ cap`, by "take it or leave it" recursion.  The driver answers
+value-only `knapv` lines with it when the limit is too large to execute the table
+(`Golib.C18.knapsack_value_eq_brute`: it IS the value of what `knapsackGo` returns). -/
+def bruteOpt {α : Type} (wf vf : α → Int) : List α → Int → Int
+  | [], _ => 0
+  | x :: xs, cap =>
+    let skip := bruteOpt wf vf xs cap
+    if wf x ≤ cap then
+      let take := vf x + bruteOpt wf vf xs (cap - wf x)
+      if take > skip then take else skip
+    else skip
+
 end Golib.C18
